@@ -1307,6 +1307,163 @@ pub fn c01_replay(case_json: &Value, st: &mut Stats) -> CheckResult {
 }
 
 // ---------------------------------------------------------------------------------------------
+// A slow storage: another connection holds the database's write lock for a real stretch of time
+// (fractions of the lock-wait budget, and a little more than it) while an AddVersion that must be
+// accepted is in flight.  Whatever the server answers - accepted after the wait, or a server
+// error because the lock never came - the chain afterwards holds exactly the acknowledged
+// versions: a request answered with an error has stored nothing, also not a little later.
+// Time is only the stimulus here; no answer is judged by how long it took.
+
+#[derive(Clone, Debug, Serialize, Deserialize, PartialEq, Eq, Hash)]
+pub struct SlowCase {
+    pub hold_ms: u32,
+    /// through a real socket server instead of the in-process service
+    pub sock: bool,
+    /// the slowed request is the client's very first
+    pub first: bool,
+    pub salt: u32,
+}
+
+pub fn check_slow_lock(sc: &SlowCase, st: &mut Stats) -> CheckResult {
+    let dir = TempDir::new("c01w");
+    let dpath = dir.path().to_path_buf();
+    let cfg = Cfg::default();
+    let mut drv = Driver::with_factory(Backend::Sqlite, Via::Http, &cfg, None, crate::driver::sqlite_factory(dpath.clone()), None).map_err(|e| Fail::Violation(format!("opening storage: {e:#}")))?;
+    drv.db_path = Some(dpath.clone());
+    let mut _srv = None;
+    if sc.sock {
+        let ws = taskchampion_sync_server::WebServer::new(crate::driver::server_config(&cfg), None, crate::driver::ArcStorage(drv.storage.clone()));
+        let srv = crate::sock::SockServer::start_workers(ws, 2).map_err(|e| Fail::Inconclusive(format!("cannot start a socket server: {e:#}")))?;
+        let addr = srv.addr;
+        _srv = Some(srv);
+        drv.ext = Some(Box::new(move |r: &crate::driver::HttpReq| -> crate::driver::HttpResp {
+            match crate::sock::exchange(addr, r, crate::sock::Encoding::ContentLength, &[], Duration::from_secs(120)) {
+                Ok(resp) => resp,
+                Err(e) => crate::driver::HttpResp { status: 0, crashed: Some(format!("no response: {e:?}")), ..Default::default() },
+            }
+        }));
+    }
+    let what = format!("write lock held by another connection for {} ms while an AddVersion on the client's {} is in flight ({})", sc.hold_ms, if sc.first { "empty chain" } else { "latest version" }, if sc.sock { "socket" } else { "in process" });
+    let c = case::client_uuid(sc.salt, 0);
+    let other = case::client_uuid(sc.salt, 1);
+    let mut acked: Vec<Uuid> = vec![];
+    if !matches!(drv.add_version(other, Uuid::nil(), b"another client"), Outcome::Accepted { .. }) {
+        return v(format!("{what}: the set-up request of another client was not accepted"));
+    }
+    if !sc.first {
+        match drv.add_version(c, Uuid::nil(), b"one") {
+            Outcome::Accepted { id, .. } => acked.push(id),
+            o => return v(format!("{what}: the first AddVersion was answered {}", o.short())),
+        }
+    }
+    let (tx, rx) = std::sync::mpsc::channel::<Result<(), String>>();
+    let hp = dpath.join("taskchampion-sync-server.sqlite3");
+    let hold = sc.hold_ms as u64;
+    let holder = std::thread::spawn(move || {
+        let run = || -> Result<rusqlite::Connection, String> {
+            let con = rusqlite::Connection::open(hp).map_err(|e| e.to_string())?;
+            con.busy_timeout(Duration::from_secs(30)).map_err(|e| e.to_string())?;
+            con.execute_batch("BEGIN IMMEDIATE").map_err(|e| e.to_string())?;
+            Ok(con)
+        };
+        match run() {
+            Ok(con) => {
+                let _ = tx.send(Ok(()));
+                std::thread::sleep(Duration::from_millis(hold));
+                let _ = con.execute_batch("ROLLBACK");
+            }
+            Err(e) => {
+                let _ = tx.send(Err(e));
+            }
+        }
+    });
+    match rx.recv_timeout(Duration::from_secs(60)) {
+        Ok(Ok(())) => {}
+        Ok(Err(e)) => return Err(Fail::Inconclusive(format!("{what}: the lock holder could not take the lock: {e}"))),
+        Err(_) => return Err(Fail::Inconclusive(format!("{what}: the lock holder did not start"))),
+    }
+    let t0 = std::time::Instant::now();
+    let parent = acked.last().copied().unwrap_or(Uuid::nil());
+    let out = drv.add_version(c, parent, b"two");
+    let waited = t0.elapsed();
+    let _ = holder.join();
+    // whatever the server may still have in hand gets time to finish: the lock-wait budget
+    // and a margin, counted from the start of the request
+    let settle = Duration::from_millis(7000);
+    if t0.elapsed() < settle {
+        std::thread::sleep(settle - t0.elapsed());
+    }
+    st.check();
+    if matches!(out, Outcome::Refused { status: 0 }) {
+        return Err(Fail::Inconclusive(format!("{what}: the socket exchange produced no response")));
+    }
+    match &out {
+        Outcome::Accepted { id, .. } => acked.push(*id),
+        Outcome::Conflict { .. } => return v(format!("{what}: answered with a conflict although the parent was the client's latest version and no other request for the client was made")),
+        _ => {}
+    }
+    let probe = SqliteStorage::new(&dpath).map_err(|e| Fail::Violation(format!("{what}: opening storage afterwards: {e:#}")))?;
+    let sv = |e: anyhow::Error| Fail::Violation(format!("{what}: reading the chain afterwards: {e:#}"));
+    let mut chain = vec![];
+    {
+        let mut p = Uuid::nil();
+        let mut t = probe.txn(c).map_err(sv)?;
+        while let Some(ver) = t.get_version_by_parent(p).map_err(sv)? {
+            chain.push(ver.version_id);
+            p = ver.version_id;
+            if chain.len() > 1000 {
+                break;
+            }
+        }
+    }
+    if chain != acked {
+        return v(format!("{what}: the request was answered {} after {} ms; afterwards the chain from nil holds {} version(s) {:?} but the acknowledged ones are {:?}", out.short(), waited.as_millis(), chain.len(), chain, acked));
+    }
+    // the latest acknowledged version has no child, and the next upload on it is accepted
+    let latest = acked.last().copied().unwrap_or(Uuid::nil());
+    match drv.get_child(c, latest) {
+        Outcome::NotFound | Outcome::NoSuchClient => {}
+        o => return v(format!("{what}: the request was answered {}; GetChildVersion on the latest acknowledged version {latest} then answered {}", out.short(), o.short())),
+    }
+    match drv.add_version(c, latest, b"three") {
+        Outcome::Accepted { .. } => {}
+        o => return v(format!("{what}: the request was answered {}; the next AddVersion on the latest acknowledged version {latest} was answered {}", out.short(), o.short())),
+    }
+    st.label(&format!("c01:slow-lock:{}", out.class()));
+    if waited >= Duration::from_millis(500) {
+        st.nontrivial(&("c01-slow", sc.hold_ms, sc.sock, sc.first, out.class()));
+    }
+    Ok(())
+}
+
+pub fn slow_lock_subrun(rep: &mut Report, tier: Tier) {
+    let r = engine::replay_dir::<SlowCase, _>("C01", "slow-lock", check_slow_lock);
+    rep.absorb("replay-tier-slow-lock", r);
+    if rep.failed() {
+        return;
+    }
+    let mut cases = vec![];
+    let holds: Vec<u32> = match tier {
+        Tier::Quick => vec![700, 1900, 2600, 3300, 3700, 4100, 4300, 4500, 4700, 4900, 5200, 5600, 6400],
+        Tier::Thorough => (2..=44).map(|k| k * 150).collect(),
+    };
+    for (i, h) in holds.iter().enumerate() {
+        cases.push(SlowCase { hold_ms: *h, sock: i % 2 == 1, first: i % 3 == 2, salt: 11 + i as u32 });
+        if tier == Tier::Thorough {
+            cases.push(SlowCase { hold_ms: *h, sock: i % 2 == 0, first: i % 3 == 0, salt: 511 + i as u32 });
+        }
+    }
+    let mut r = engine::enumerate("C01", "slow-lock", cases, check_slow_lock);
+    r.exhaustive = false;
+    rep.absorb("slow-storage-lock-held-for-seconds", r);
+}
+
+pub fn slow_lock_replay(case_json: &Value, st: &mut Stats) -> CheckResult {
+    let sc: SlowCase = serde_json::from_value(case_json.clone()).map_err(|e| Fail::Inconclusive(format!("bad replay file: {e}")))?;
+    check_slow_lock(&sc, st)
+}
+
+// ---------------------------------------------------------------------------------------------
 // Stress complement: schedules the operating system picks (sound, not complete, and a failure
 // need not reproduce from its replay file - the saved case re-runs the same scripts)
 
@@ -1323,7 +1480,8 @@ pub enum StressOp {
 
 #[derive(Clone, Debug, Serialize, Deserialize, PartialEq, Eq, Hash)]
 pub struct StressCase {
-    /// 0 = memory (in process), 1 = SQLite one object per thread (in process), 2 = two real server processes on one directory
+    /// 0 = memory (in process), 1 = SQLite one object per thread (in process), 2 = two real server processes on one directory,
+    /// 3 = SQLite one object per thread, each opened by its thread at the same moment on a directory that holds no database yet
     pub setup: u8,
     pub nclients: u8,
     pub scripts: Vec<Vec<StressOp>>,
@@ -1341,9 +1499,17 @@ fn stress_op(n: u8) -> impl Strategy<Value = StressOp> {
 }
 
 fn stress_case(max_ops: usize) -> BoxedStrategy<StressCase> {
-    (0u8..3, 1u8..4, any::<u32>())
+    (prop_oneof![3 => 0u8..3, 1 => Just(3u8)], 1u8..4, any::<u32>())
         .prop_flat_map(move |(setup, n, salt)| (Just(setup), Just(n), Just(salt), proptest::collection::vec(proptest::collection::vec(stress_op(n), 4..=max_ops), 3..=8)))
         .prop_map(|(setup, nclients, salt, scripts)| StressCase { setup, nclients, scripts, salt: salt & 0xFFFF })
+        .boxed()
+}
+
+/// Only the overlapping first starts: two to four instances, a handful of first requests each.
+fn first_start_case() -> BoxedStrategy<StressCase> {
+    (1u8..3, any::<u32>())
+        .prop_flat_map(move |(n, salt)| (Just(n), Just(salt), proptest::collection::vec(proptest::collection::vec(stress_op(n), 3..=6), 2..=4)))
+        .prop_map(|(nclients, salt, scripts)| StressCase { setup: 3, nclients, scripts, salt: salt & 0xFFFF })
         .boxed()
 }
 
@@ -1361,14 +1527,13 @@ pub fn check_stress(sc: &StressCase, st: &mut Stats) -> CheckResult {
         for _ in 0..2 {
             let mut started = None;
             for _ in 0..4 {
-                let l = std::net::TcpListener::bind("127.0.0.1:0").map_err(|e| Fail::Inconclusive(format!("no loopback port: {e}")))?;
-                let port = l.local_addr().unwrap().port();
-                drop(l);
+                let port = crate::props::binary::free_port("127.0.0.1").ok_or_else(|| Fail::Inconclusive("no loopback port".into()))?;
                 let launch = crate::props::binary::Launch {
                     args: vec!["--data-dir".into(), dir.path().to_string_lossy().into_owned(), "--listen".into(), format!("127.0.0.1:{port}"), "--snapshot-versions".into(), "3".into()],
                     env: vec![],
                     connect: vec![format!("127.0.0.1:{port}").parse().unwrap()],
                     cwd: None,
+                    dir_arg: None,
                 };
                 if let Ok(p) = crate::props::binary::spawn(&bin, &launch) {
                     started = Some(p);
@@ -1385,6 +1550,7 @@ pub fn check_stress(sc: &StressCase, st: &mut Stats) -> CheckResult {
     type Rec = (usize, StressOp, Uuid, Outcome, std::time::Duration);
     let results: Arc<Mutex<Vec<Rec>>> = Arc::new(Mutex::new(vec![]));
     let start_gate = Arc::new(std::sync::Barrier::new(sc.scripts.len()));
+    let open_failures = Arc::new(std::sync::atomic::AtomicUsize::new(0));
     let mut joins = vec![];
     for (t, script) in sc.scripts.iter().cloned().enumerate() {
         let clients = clients.clone();
@@ -1397,14 +1563,47 @@ pub fn check_stress(sc: &StressCase, st: &mut Stats) -> CheckResult {
             1 => Some(Arc::new(SqliteStorage::new(dir.path()).map_err(sv)?)),
             _ => None,
         };
+        if sc.setup > 3 {
+            return Err(Fail::Inconclusive("unknown setup".into()));
+        }
         let backend = if sc.setup == 0 { Backend::Mem } else { Backend::Sqlite };
+        let dpath = dir.path().to_path_buf();
+        let late_open = sc.setup == 3;
+        let salt = sc.salt;
+        let open_failures = open_failures.clone();
         joins.push(std::thread::spawn(move || {
+            let mut inner = inner;
+            if late_open {
+                // overlapping first starts: every thread opens the (not yet existing) database
+                // itself, all at the same moment; a start that fails is tried again, as an
+                // operator would (two processes creating the file at once may find it locked)
+                gate.wait();
+                // ... give or take a few milliseconds (steps of 100 us, fixed by the case)
+                std::thread::sleep(Duration::from_micros((((salt as u64) >> (3 * (t % 5))) & 31) * 100));
+                for attempt in 0..200 {
+                    match SqliteStorage::new(&dpath) {
+                        Ok(s) => {
+                            inner = Some(Arc::new(s) as Arc<dyn Storage>);
+                            break;
+                        }
+                        Err(_) => {
+                            open_failures.fetch_add(1, std::sync::atomic::Ordering::SeqCst);
+                            std::thread::sleep(Duration::from_millis(1 + attempt % 7));
+                        }
+                    }
+                }
+                if inner.is_none() {
+                    return;
+                }
+            }
             let mut drv = inner.map(|i| {
                 let i2 = i.clone();
                 Driver::with_factory(backend, Via::Http, &cfg, None, Box::new(move || Ok(Stores { served: i.clone(), probe: i2.clone() })), None).expect("driver")
             });
             let mut latest = vec![Uuid::nil(); clients.len()];
-            gate.wait();
+            if !late_open {
+                gate.wait();
+            }
             for (k, op) in script.iter().enumerate() {
                 let (ci, ep, id) = match op {
                     StressOp::Append(c) => (*c, crate::driver::Endpoint::AddVersion, latest[*c as usize]),
@@ -1450,15 +1649,24 @@ pub fn check_stress(sc: &StressCase, st: &mut Stats) -> CheckResult {
     }
     let results = results.lock().unwrap().clone();
     st.check();
-    let what = format!("{} threads, {} clients, setup {}", sc.scripts.len(), sc.nclients, match sc.setup { 0 => "memory in process", 1 => "SQLite in process, one storage object per thread", _ => "two server processes on one data directory" });
-    if results.iter().any(|r| r.4 > Duration::from_millis(2500)) {
-        return Err(Fail::Inconclusive(format!("{what}: a request waited longer than half the lock budget")));
+    let what = format!("{} threads, {} clients, setup {}", sc.scripts.len(), sc.nclients, match sc.setup { 0 => "memory in process", 1 => "SQLite in process, one storage object per thread", 3 => "SQLite in process, one storage object per thread, all opened at the same moment on an empty directory", _ => "two server processes on one data directory" });
+    if sc.setup == 3 && results.len() < sc.scripts.iter().map(|s| s.len()).sum::<usize>() {
+        return Err(Fail::Inconclusive(format!("{what}: an instance could not be started in 200 attempts")));
+    }
+    if sc.setup == 3 && open_failures.load(std::sync::atomic::Ordering::SeqCst) > 0 {
+        st.label("c03:stress:first-start-failed-and-retried");
+    }
+    // a request that waited for more than half the lock-wait budget (a busy machine): a server
+    // error may then be an honest "database is locked"; everything else below still holds
+    let slow = results.iter().any(|r| r.4 > Duration::from_millis(2500));
+    if slow {
+        st.label("c03:stress:a-request-waited-more-than-half-the-lock-budget");
     }
     if results.iter().any(|r| matches!(r.3, Outcome::Refused { status: 0 })) {
         return Err(Fail::Inconclusive(format!("{what}: a socket exchange produced no response")));
     }
     for (t, op, id, out, _) in &results {
-        if out.is_error() {
+        if out.is_error() && !slow {
             return v(format!("{what}: thread {t}: {op:?} ({id}) was answered {} although nothing but other requests was going on", out.short()));
         }
     }
@@ -1522,6 +1730,11 @@ pub fn stress_subrun(rep: &mut Report, tier: Tier, seed: u64) {
     // each case spawns up to 8 threads (and two processes): fewer workers than cores
     let r = engine::explore_n("C03", "stress", seed, tier.pick(60, 3000), 6, || stress_case(max), check_stress);
     rep.absorb("stress-os-schedules", r);
+    if rep.failed() {
+        return;
+    }
+    let r = engine::explore_n("C03", "stress", seed ^ 0x51, tier.pick(400, 6000), 6, first_start_case, check_stress);
+    rep.absorb("overlapping-first-starts-on-an-empty-directory", r);
 }
 
 // ---------------------------------------------------------------------------------------------
